@@ -88,6 +88,13 @@ def templates(e: Env, st: Sites, level: str):
     out["Sx+For(For(C;Sy|stepLy))"] = lambda: nest(("For", ("Store", "z", ("Int", 0)), ("Bin", "Lt", ("Load", "z"), e.u(5)), ("Store", "z", ("Bin", "Add", ("Load", "z"), ("Int", 1))),
                                                     ("For", ("Store", "i", ("Int", 0)), ("Bin", "Lt", ("Load", "i"), e.u(6)), ("Seq", AL["Ly"](), istep()),
                                                      ("Seq", ("If", e.u(7), AL["C"]()), AL["Sy"]()))))
+    # a For body that ENDS in a bare Break: the step is reached through Continue only
+    def forb(body):
+        return nest(("For", ("Store", "i", ("Int", 0)), ("Bin", "Lt", ("Load", "i"), e.u(6)), ("Seq", AL["Ly"](), istep()), body))
+    out["Sx+For(ifC;Sy;B|stepLy)"] = lambda: forb(("Seq", ("If", e.u(7), AL["C"]()), AL["Sy"](), AL["B"]()))
+    out["Sx+For(Sy;ifC;B|stepLy)"] = lambda: forb(("Seq", AL["Sy"](), ("If", e.u(7), AL["C"]()), AL["B"]()))
+    out["Sx+For(ifC|Sy;T;B|stepLy)"] = lambda: forb(("Seq", ("If", e.u(7), AL["C"](), AL["Sy"]()), AL["T"](), AL["B"]()))
+    out["Sx+For(T;B|stepLy)"] = lambda: forb(("Seq", AL["T"](), AL["B"]()))
     out["Sx+While(Sy;While[Ly](C;T))"] = lambda: nest(("While", e.u(5), ("Seq", AL["Sy"](), ("While", ("Bin", "Lt", st.load("y"), e.u(6)), ("Seq", ("If", e.u(7), AL["C"]()), AL["B"]())), AL["B"]())))
     out["Sx+While(While(B;Sy;B);Ly)"] = lambda: nest(("While", e.u(5), ("Seq", ("While", ("Int", 1), ("Seq", ("If", e.u(7), AL["B"]()), AL["Sy"](), AL["B"]())), AL["Ly"](), AL["B"]())))
     out["Sx+While(While(Sy;B);Ly)"] = lambda: nest(("While", e.u(5), ("Seq", ("While", ("Int", 1), ("Seq", AL["Sy"](), AL["B"]())), AL["Ly"](), AL["B"]())))
